@@ -216,6 +216,11 @@ class URLInfo(object):
 
         info.resource = resource
 
+        # Build the normalized URL now so that user-info that cannot be
+        # represented in the encoding is rejected here with a ValueError
+        # rather than when the attribute is first read.
+        info.url
+
         return info
 
     @classmethod
@@ -307,11 +312,13 @@ class URLInfo(object):
             parts = [self.scheme, '://']
 
             if self.username:
-                parts.append(normalize_username(self.username))
+                parts.append(normalize_username(
+                    self.username, encoding=self.encoding))
 
             if self.password:
                 parts.append(':')
-                parts.append(normalize_password(self.password))
+                parts.append(normalize_password(
+                    self.password, encoding=self.encoding))
 
             if self.username or self.password:
                 parts.append('@')
